@@ -11,7 +11,18 @@ def run_history(h, d, seed, profile, stats, length, build="osmosis", monitors=No
     hist = History(h, d, seed, profile, stats, build=build, monitors=monitors, mode=mode)
     stats.histories += 1
     try:
-        if not hist.boot():
+        booted = hist.boot()
+        if monitors:
+            from . import monitors as M
+            for c in hist.boot_tx["calls"]:
+                if "panic" in c["result"]:
+                    hist.findings.append({"property": "C16", "monitor": "no_panic",
+                                          "signature": {"entry": "instantiate", "variant": "instantiate", "site": M.classify_panic(c["result"]["panic"])},
+                                          "what": "instantiate panics: %s" % c["result"]["panic"][:120],
+                                          "upto": 1, "event": hist.events[0]})
+            if booted:
+                M.m_boot_config(hist)
+        if not booted:
             return hist, None
         g = Gen(hist, profile.get("weights"))
         # most histories start by un-halting the contract
